@@ -545,7 +545,8 @@ Plan gen_start_scenario(uint64_t seed, const GenOpts &o, const char *name) {
   g.p.w.k.jitter_mode = 0;
   g.p.w.k.rlim_cur = (uint64_t) g.pick({ 24, 32, 64 });
   if (g.chance(30)) g.p.w.low_fds = (int) g.r.below(8);
-  if (g.chance(4)) { g.p.w.cwd_depth = 17; g.p.w.cwd_comp = 255; }  // a caller working far below the root: parent path + program beyond PATH_MAX
+  if (g.chance(4)) { g.p.w.cwd_depth = 17; g.p.w.cwd_comp = 255; }
+  g.p.w.k.errno_clobber = g.chance(30) ? 1 : 0;  // the caller's signal handlers do not preserve errno  // a caller working far below the root: parent path + program beyond PATH_MAX
   if (std::string(name) == "C12") {
     g.p.w.mask = g.r.next();
     int ni = (int) g.r.range(0, 5), nhd = (int) g.r.range(0, 5);
@@ -1126,6 +1127,7 @@ Plan gen_c17(uint64_t seed, const GenOpts &o) {
   s.nonblocking = g.chance(75);
   if (kind == 4) s.nonblocking = true;
   s.err.type = g.chance(50) ? g.C.R_PIPE : g.C.R_DEFAULT;
+  if (g.chance(15)) s.deadline = (int) g.pick({ 5, 20, 60 });  // a deadline bounds waits, not nonblocking calls
   // the mode is a property of the handle, whichever of the three streams happen to be pipes
   if (g.chance(15)) { s.err.type = g.C.R_PIPE; s.in.type = g.chance(70) ? g.C.R_DISCARD : g.C.R_PIPE; s.out.type = g.C.R_DISCARD; }
   if (g.chance(35) && s.in.type != g.C.R_DISCARD) s.input_size = g.pick({ 0, 1, (int64_t) cap - 1, (int64_t) cap, (int64_t) cap + 1, 4 * (int64_t) cap });
